@@ -264,6 +264,7 @@ def part_static(ctx, rng):
         gk = gen[(c["mi"], X.seam_k(e["ev"].get("proj", "none")), c["sv"])]
         # decided by the specification: a face that does NOT cross the seam and whose corners lie on one parallel
         sg["flat_noncrossing_face"] = bool(set(gk["flat"]) - set(gk["cross"]))
+        sg["none_kept"] = len(gk["kept"]) == 0          # every face crosses the seam (decided by the specification)
         ctx.violation(e["id"], "Raises", detail=e["error"], replay=e, sig=sg)
     # numeric clause (Python, as the property's area statement is numeric): pieces cover the face
     n_area = 0
